@@ -9,6 +9,7 @@ import (
 	"encoding/json"
 	"errors"
 	"fmt"
+	"sync"
 
 	appsv1 "k8s.io/api/apps/v1"
 	corev1 "k8s.io/api/core/v1"
@@ -120,6 +121,45 @@ func viewGet(kind, ns, name string, out interface{}) error {
 		return err
 	}
 	return json.Unmarshal(r.B, out)
+}
+
+// sharedObjects makes the listers behave like client-go's: every caller that reads the same version of an object gets
+// the SAME pointer (the informer cache owns it; callers must not modify it). Code that writes into a lister's object is
+// then visible to the race detector as a write racing with other readers, as it is in a real process. The key is the
+// object's content, the map is guarded by a real mutex (as the informer's store is), and it is emptied by ResetShared
+// at the start of every simulated run.
+var sharedObjects = struct {
+	mu sync.Mutex
+	m  map[string]interface{}
+}{m: map[string]interface{}{}}
+
+func init() { core.OnNewSim(ResetShared) }
+
+// ResetShared forgets every shared lister object (runs at the start of every simulated run).
+func ResetShared() {
+	sharedObjects.mu.Lock()
+	sharedObjects.m = map[string]interface{}{}
+	sharedObjects.mu.Unlock()
+}
+
+// viewGetShared is viewGet for listers: mk allocates the typed object once per distinct content.
+func viewGetShared(kind, ns, name string, mk func() interface{}) (interface{}, error) {
+	r := core.Call(core.Req{Op: "view.get", A: []string{kind, ns, name}})
+	if err := ToErr(r, kind, name); err != nil {
+		return nil, err
+	}
+	key := kind + "\x00" + string(r.B)
+	sharedObjects.mu.Lock()
+	defer sharedObjects.mu.Unlock()
+	if o, ok := sharedObjects.m[key]; ok {
+		return o, nil
+	}
+	o := mk()
+	if err := json.Unmarshal(r.B, o); err != nil {
+		return nil, err
+	}
+	sharedObjects.m[key] = o
+	return o, nil
 }
 
 func viewList(kind, ns string, items interface{}) error {
@@ -322,11 +362,11 @@ type podNS struct {
 
 func (l podNS) List(sel labels.Selector) ([]*corev1.Pod, error) { return listPods(l.ns, sel) }
 func (l podNS) Get(name string) (*corev1.Pod, error) {
-	out := &corev1.Pod{}
-	if err := viewGet("pods", l.ns, name, out); err != nil {
+	o, err := viewGetShared("pods", l.ns, name, func() interface{} { return &corev1.Pod{} })
+	if err != nil {
 		return nil, err
 	}
-	return out, nil
+	return o.(*corev1.Pod), nil
 }
 
 func listPods(ns string, sel labels.Selector) ([]*corev1.Pod, error) {
@@ -349,11 +389,11 @@ type NodeLister struct {
 }
 
 func (l NodeLister) Get(name string) (*corev1.Node, error) {
-	out := &corev1.Node{}
-	if err := viewGet("nodes", "", name, out); err != nil {
+	o, err := viewGetShared("nodes", "", name, func() interface{} { return &corev1.Node{} })
+	if err != nil {
 		return nil, err
 	}
-	return out, nil
+	return o.(*corev1.Node), nil
 }
 
 func (l NodeLister) List(sel labels.Selector) ([]*corev1.Node, error) {
@@ -412,11 +452,11 @@ type stsNS struct {
 }
 
 func (l stsNS) Get(name string) (*appsv1.StatefulSet, error) {
-	out := &appsv1.StatefulSet{}
-	if err := viewGet("statefulsets", l.ns, name, out); err != nil {
+	o, err := viewGetShared("statefulsets", l.ns, name, func() interface{} { return &appsv1.StatefulSet{} })
+	if err != nil {
 		return nil, err
 	}
-	return out, nil
+	return o.(*appsv1.StatefulSet), nil
 }
 
 // DeploymentLister reads the deployment view.
@@ -434,11 +474,11 @@ type dpNS struct {
 }
 
 func (l dpNS) Get(name string) (*appsv1.Deployment, error) {
-	out := &appsv1.Deployment{}
-	if err := viewGet("deployments", l.ns, name, out); err != nil {
+	o, err := viewGetShared("deployments", l.ns, name, func() interface{} { return &appsv1.Deployment{} })
+	if err != nil {
 		return nil, err
 	}
-	return out, nil
+	return o.(*appsv1.Deployment), nil
 }
 
 // PoolLister reads the Pool view.
@@ -454,11 +494,11 @@ type poolNS struct {
 }
 
 func (l poolNS) Get(name string) (*v1alpha1.Pool, error) {
-	out := &v1alpha1.Pool{}
-	if err := viewGet("pools", l.ns, name, out); err != nil {
+	o, err := viewGetShared("pools", l.ns, name, func() interface{} { return &v1alpha1.Pool{} })
+	if err != nil {
 		return nil, err
 	}
-	return out, nil
+	return o.(*v1alpha1.Pool), nil
 }
 
 // CRDLister reads the CustomResourceDefinition view.
@@ -467,11 +507,11 @@ type CRDLister struct {
 }
 
 func (l CRDLister) Get(name string) (*extv1.CustomResourceDefinition, error) {
-	out := &extv1.CustomResourceDefinition{}
-	if err := viewGet("crds", "", name, out); err != nil {
+	o, err := viewGetShared("crds", "", name, func() interface{} { return &extv1.CustomResourceDefinition{} })
+	if err != nil {
 		return nil, err
 	}
-	return out, nil
+	return o.(*extv1.CustomResourceDefinition), nil
 }
 
 func (l CRDLister) List(sel labels.Selector) ([]*extv1.CustomResourceDefinition, error) {
